@@ -409,10 +409,21 @@ func c17R5(c *Ctx) {
 			continue
 		}
 		dropBlocks++
-		hit, path := reachFrom(b, 0, func(in ssa.Instruction) bool {
+		hit, path := reachFromE(b, 0, func(in ssa.Instruction) bool {
 			ci, ok := in.(ssa.CallInstruction)
 			return ok && calleeID(ci.Common()) == "(*trzsz.trzszBuffer).addBuffer"
-		}, nil)
+		}, func(ssa.Instruction) bool { return false }, func(from, to *ssa.BasicBlock) bool {
+			// an edge that states the opposite of what holds in b is not taken from b (the same merged
+			// condition tested a second time)
+			for _, ef := range edgeFactsTo(from, to) {
+				for _, bf := range fs {
+					if ef.V == bf.V && ef.Pol != bf.Pol {
+						return true
+					}
+				}
+			}
+			return false
+		})
 		c.check(hit == nil, "addReceivedData/inband-dropped", c.pos(f.Pos()), "in-band bytes are not enqueued once the tunnel is agreed", "in-band bytes can still reach the transfer buffer after the tunnel was agreed", c.pathStr(path)...)
 	}
 	{
